@@ -28,6 +28,11 @@ def frac_of(code, table=None):
 
 def rand_rate_value(rng):
     r = rng.random()
+    if r < .08:
+        # tiny amounts with many significant digits (the stored sixth decimal
+        # is where an inexact intermediate would show), down to the limit
+        return rng.choice([Fraction(rng.randint(10 ** 6, 10 ** 7), 10 ** rng.randint(10, 13)),
+                           Fraction(1, 10 ** 6), Fraction(9999999, 10 ** 13), Fraction(1000001, 10 ** 12)])
     if r < .3:
         return Fraction(rng.randint(1, 99999), 10 ** rng.randint(0, 5))
     if r < .5:
